@@ -257,4 +257,8 @@ func runGetSnap(e *env) {
 		}
 	}
 	e.checkpoint(func() { e.afterQuiescenceChecks(nil) })
+	if spec != nil {
+		// the same Get again, now that nothing changes any more: exactly what is installed
+		e.checkGetAgainstImpl([]string{"C07", "C11"}, spec.NI, spec.All, spb.AFTType(spec.AFT), "repeated at quiescence after a Get that overlapped modifications")
+	}
 }
